@@ -1,1 +1,18 @@
-// placeholder
+//! vproj — generated multi-file Veryl projects, edit operations on them and a
+//! driver for the real `veryl` CLI.  See README.md.
+
+pub mod cli;
+pub mod edit;
+pub mod genp;
+pub mod model;
+pub mod toml;
+
+pub use cli::{CliResult, Diag, OutTree, Workspace};
+pub use edit::{Applied, EditOp, EditPolicy, Editor};
+pub use genp::{GenOpts, gen_project};
+pub use model::Project;
+pub use toml::TomlCfg;
+
+/// The two `$sv::` names generated projects mention (nothing has to exist for
+/// them: `$sv::` members are opaque to the analyzer).
+pub const SV_NAMES: &[&str] = &["SvPkg::sv_t", "SvMod"];
